@@ -470,6 +470,13 @@ def run(repo, rep):
              'an argument (the data two evaluations may share)')
     eff = c09.Effects(repo, uni)
     c09.check_r09a(repo, rep, uni, eff, c09.r09a_scope(uni))
+    # a lambda stored by def() in a prepared context is reachable from every
+    # evaluation: the scope its arguments are published into must be made
+    # per invocation
+    from sa.rules import c04
+    rep.rule('R04b', 'see C04: the callable built for a lambda publishes '
+             'its arguments into a child context created per invocation')
+    c04.check_r04b(repo, rep)
     funcs = uni.evaluation_time()
     rep.count(evaluation_time_functions=len(funcs), classified_writes=n,
               stateful_classes=sorted(stateful))
